@@ -920,3 +920,38 @@ func init() {
 		}
 	}
 }
+
+// transProps: the properties whose theorem lists contain the equivalence theorems of a translated module
+// (props/Cxx.py); for those properties the translated functions are not pinned syntactically (skel.go).
+var transProps = map[string][]string{
+	"TransJson":     {"C01", "C18"},
+	"TransFedReq":   {"C13"},
+	"TransSpec":     {"C16", "C17"},
+	"TransStateRes": {"C10", "C11"},
+	"TransKeys":     {"C06", "C12", "C13"},
+	"TransLevels":   {"C07", "C08"},
+}
+
+func translatedFor(prop, recv, name string) bool {
+	for _, m := range transModules {
+		listed := false
+		for _, p := range transProps[m.mod] {
+			if p == prop {
+				listed = true
+			}
+		}
+		if !listed {
+			continue
+		}
+		for _, f := range m.funcs {
+			want := f
+			if !strings.Contains(f, ".") {
+				want = "." + f
+			}
+			if want == recv+"."+name {
+				return true
+			}
+		}
+	}
+	return false
+}
